@@ -240,3 +240,7 @@ impl Observe for ParameterNumberMessage {
         format!("{:?}", self)
     }
 }
+
+observe_plain!(ControlChange14BitMessageScanner, ParameterNumberMessageScanner);
+#[cfg(feature = "std")]
+observe_plain!(PollingParameterNumberMessageScanner);
